@@ -137,6 +137,8 @@ class Run:
                 ob.detail = ob.detail or "never decided"
             if ob.status == VIOLATION and (self.pid, ob.key) in known:
                 ob.status = KNOWN
+            if ob.status == KNOWN and (self.pid, ob.key) not in known:
+                ob.status = VIOLATION
             if ob.status == VIOLATION:
                 viol.append(ob)
             elif ob.status == KNOWN:
